@@ -15,8 +15,6 @@ import (
 	"fmt"
 	"io"
 	"log"
-	"math/big"
-	"math/rand"
 
 	"github.com/EliCDavis/polyform/modeling"
 	"github.com/EliCDavis/polyform/modeling/triangulation"
@@ -64,8 +62,8 @@ func Spec() *run.Spec {
 		},
 		Phases: []run.Phase{
 			{Name: "oracle-selftest", Cases: func(string) int { return 1 }, Run: selfTest, Batch: 1},
-			{Name: "sets", Cases: tiered(3000, 40000), Run: setCase, Batch: 20, CPUBudgetS: 60},
-			{Name: "orders", Cases: tiered(300, 3000), Run: orderCase, Batch: 10, CPUBudgetS: 60},
+			{Name: "sets", Cases: tiered(2000, 40000), Run: setCase, Batch: 20, CPUBudgetS: 60},
+			{Name: "orders", Cases: tiered(200, 3000), Run: orderCase, Batch: 10, CPUBudgetS: 60},
 		},
 	}
 }
@@ -300,7 +298,7 @@ func orderCase(c *run.Ctx) run.Result {
 	res.Sig = "orders/" + w.sig()
 	record(&res, w)
 	dt := bruteDelaunay(P)
-	var hull2 *big.Rat = polyArea2Exact(hullExact(P))
+	hull2 := polyArea2Exact(hullExact(P))
 	required := 0
 	for _, d := range dt {
 		if d.robust && d.interior {
@@ -380,5 +378,3 @@ func keyOf(idx []int) string {
 	}
 	return fmt.Sprint(ts)
 }
-
-var _ = rand.New
